@@ -9,6 +9,7 @@ package main
 // exported, fed the rest of the same history.
 
 import (
+	storetypes "cosmossdk.io/store/types"
 	"crypto/sha256"
 	"encoding/base64"
 	"encoding/hex"
@@ -90,6 +91,20 @@ type c19Export struct {
 	Height   int64           `json:"height"` // last executed height
 	TimeNs   int64           `json:"time_ns"`
 	AppState json.RawMessage `json:"app_state"`
+}
+
+// c19ProtorevMap renders protorev's (base denom, other denom) -> pool map, which is kept in the store but is not part
+// of the module's exported genesis (InitGenesis rebuilds it from the liquidity of the moment).
+func c19ProtorevMap(ch *chain.Chain, ctx sdk.Context) string {
+	st := ctx.KVStore(ch.App.AppKeepers.GetKey(protorevtypes.StoreKey))
+	it := storetypes.KVStorePrefixIterator(st, protorevtypes.KeyPrefixDenomPairToPool)
+	defer it.Close()
+	var out []string
+	for ; it.Valid(); it.Next() {
+		out = append(out, fmt.Sprintf("%s=%d", string(it.Key()[len(protorevtypes.KeyPrefixDenomPairToPool):]), sdk.BigEndianToUint64(it.Value())))
+	}
+	sort.Strings(out)
+	return strings.Join(out, ";")
 }
 
 func renderEvents(evs []abci.Event) string {
@@ -893,6 +908,7 @@ func c19RunRole(c *vk.Ctx) bool {
 				}
 				eb, _ := json.Marshal(c19Export{Height: h, TimeNs: lastTime.UnixNano(), AppState: exp.AppState})
 				os.WriteFile(filepath.Join(dir, fmt.Sprintf("export-%d.json", h)), eb, 0o644)
+				os.WriteFile(filepath.Join(dir, fmt.Sprintf("prmap-export-%d.txt", h)), []byte(c19ProtorevMap(ch, ch.Ctx)), 0o644)
 			}
 		}
 		if side != nil {
@@ -924,6 +940,8 @@ func c19RunRole(c *vk.Ctx) bool {
 			o.GenesisTime = time.Unix(0, exp.TimeNs).UTC()
 			ch = chain.New(o)
 			start = exp.Height
+			// (InitChain's writes live in the finalize-block branch until the first commit)
+			os.WriteFile(filepath.Join(dir, fmt.Sprintf("prmap-%s.txt", tag)), []byte(c19ProtorevMap(ch, ch.App.NewContextLegacy(false, ch.Ctx.BlockHeader()))), 0o644)
 		} else {
 			ch = chain.New(c19Options())
 		}
@@ -1180,6 +1198,19 @@ func runC19(c *vk.Ctx) {
 			}
 			tr := c19ReadTrace(filepath.Join(dir, "trace-"+j.tag+".jsonl"))
 			isImport := strings.HasPrefix(j.tag, "import")
+			if isImport {
+				// state that is in the store but not in the export: protorev's denom-pair -> pool map is rebuilt by
+				// InitGenesis from the liquidity at import time. Where the rebuilt map differs from the exporting node's,
+				// the two nodes backrun different routes from then on; that root cause is reported once for the import and the
+				// downstream comparison of this import, which could only repeat it in many shapes, is not made.
+				ma, errA := os.ReadFile(filepath.Join(dir, "prmap-export-"+strings.TrimPrefix(j.tag, "import-")+".txt"))
+				mb, errB := os.ReadFile(filepath.Join(dir, "prmap-"+j.tag+".txt"))
+				if errA == nil && errB == nil && string(ma) != string(mb) {
+					c.Violate("C19.import_state", map[string]any{"lineage": "import", "item": "protorev/denom_pair_to_pool"}, "after importing the state exported at height %s, protorev's (base denom, denom) -> pool map is\n  %s\non the imported node and\n  %s\non the exporting node (the map is not part of the exported genesis; InitGenesis rebuilds it from current liquidity)", strings.TrimPrefix(j.tag, "import-"), string(mb), string(ma))
+					c.Class("import|protorev-map-differs|downstream-not-compared")
+					continue
+				}
+			}
 			if len(tr) == 0 {
 				c.Violate("C19.empty_trace", nil, "%s produced no trace", j.tag)
 				return
@@ -1221,8 +1252,10 @@ func runC19(c *vk.Ctx) {
 							sig["msg_family"] = "staking"
 						}
 						if isImport && !firstTxSeen && sig["field"] == "gas" && x.GasUsed-y.GasUsed == 36 {
-							// the first transaction after an import: recorded and the comparison goes on
-							firstTxSeen = true
+							// the first transaction after an import: recorded and the comparison goes on. A transaction that is
+							// rejected later in the ante chain (code != 0, e.g. fee too low) reads the missing counter as well, but
+							// what its ante chain wrote is discarded: the next transaction finds the counter missing again
+							firstTxSeen = x.Code == 0
 							sig["first_tx_after_import"] = true
 							sig["gas_delta"] = 36
 							c.Violate("C19.tx_results", sig, "height %d tx %d (%s) is the first transaction executed after the import at height %d and used %d gas on the original node, %d on the imported one; every other field is equal", h, k, descs[h][k], hs[0]-1, x.GasUsed, y.GasUsed)
